@@ -83,3 +83,16 @@ def halve(x, log=None):
     r = np.asarray(x, dtype=np.float64) * 0.5
     _leave("g2p", log, t0, d, x)
     return r
+
+
+def neg_onemax(x, log=None):
+    """- onemax (the dual objective of the C05 pairs)"""
+    return -onemax(x, log)
+
+
+def neg_sphere(x, log=None):
+    return -sphere(x, log)
+
+
+def neg_weighted(x, log=None):
+    return -weighted(x, log)
